@@ -233,8 +233,27 @@ func (c *Case) Describe(s *Sim) map[string]any {
 // RoundInfo describes one (height, root height, round) as the honest replicas saw it.
 type RoundInfo struct {
 	Key       string
-	Selected  map[int]int // honest replica -> validator index it voted for as proposer
+	Selected  map[int]int   // honest replica -> validator index it voted for as proposer
+	At        map[int]int64 // honest replica -> virtual time of that election vote
 	FirstSeen int64
+	Round     uint64
+}
+
+// Spread is the difference between the first and the last honest election vote of the round.
+func (ri *RoundInfo) Spread() int64 {
+	var lo, hi int64 = 1 << 62, -1
+	for _, t := range ri.At {
+		if t < lo {
+			lo = t
+		}
+		if t > hi {
+			hi = t
+		}
+	}
+	if hi < 0 {
+		return 0
+	}
+	return hi - lo
 }
 
 // HonestLed reports whether honest replicas holding at least the +2/3 threshold selected the same honest proposer.
